@@ -123,7 +123,7 @@ ReconOK(r) ==
     IN  \A k \in 1 .. Len(r.recon) :
           LET s2 == r.recon[k][1]
               t  == r.recon[k][2] IN
-          r.recon[k][3] = (IF s2 = t THEN <<s2>> ELSE Back(t, s2, <<>>, r.g.n + 1))
+          s2 >= 0 => r.recon[k][3] = (IF s2 = t THEN <<s2>> ELSE Back(t, s2, <<>>, r.g.n + 1))
 
 \* C19: neighbourhood scans bounded by the size of the graph
 BfsScansOK(r) == r.scans1 <= r.V /\ r.scans2 <= r.V + r.E
